@@ -52,6 +52,9 @@ func VerifApuPower() {
 		vAsserti("off-reads-mask-", q, a.verifRead(q) == verifMask[q])
 	}
 	vAssert("off-nr52-70", a.ReadNR52() == 0x70)
+	// write-only register contents are destroyed too (they decide the waveform period after the next trigger)
+	vAssert("off-clears-frequency", a.ch1.frequency == 0 && a.ch2.frequency == 0 && a.ch3.frequency == 0)
+	vAssert("off-clears-noise-and-sweep", a.ch4.shift == 0 && a.ch4.divisor == 0 && a.ch4.lfsrWidth == 0 && a.ch1.sweepPeriod == 0 && a.ch1.sweepShift == 0)
 	// while off: one write to any register other than NR52 (value arbitrary)
 	r := vCfg("reg") // 0..19
 	v := vU8("v")
